@@ -9,7 +9,10 @@ W = 1 << 32
 BASE = ["alpha", "beta", "gamma", "delta", "epsilon", "zeta", "eta", "theta", "iota", "kappa", "lambda", "mu", "nu", "xi",
         "omicron", "pi", "rho", "sigma", "tau", "upsilon", "phi", "chi", "psi", "omega"]
 SPECIAL = ["polish", "Polish", "Alpha", "ALPHA", "正確", "4", "42", "ű", "Ű", "kettő", "Kettő", "három", "foo-bar", "Foo-Bar", "foo_bar",
-           "don't", "Don't", "o'neil", "O'neil", "O'Neil", "Jean-luc", "Jean-Luc", "New york", "New York", "éa", "Éa", "ǆ", "ǅ", "ß", "a b", "x", "X", "i", "I", "-", "1a", "1A", "a1b"]
+           "don't", "Don't", "o'neil", "O'neil", "O'Neil", "Jean-luc", "Jean-Luc", "New york", "New York", "éa", "Éa", "ǆ", "ǅ", "ß", "a b", "x", "X", "i", "I", "-", "1a", "1A", "a1b",
+           # Unicode corners: title form of another byte length (dotless i, long s), digraphs with a separate title case,
+           # combining marks, characters outside the BMP, ligatures, an emoji sequence
+           "ıa", "Ia", "ſa", "Sa", "ǆa", "ǅa", "Ǆa", "ǳ", "ǲ", "e\u0301a", "E\u0301a", "\u0301a", "𝓍y", "𝒳y", "ﬁne", "ŉa", "👨\u200d👩\u200d👧x", "ǰ", "ᾳ", "ᾼ"]
 
 LISTS_FIXED = [
     ["one", "two", "three"],
@@ -44,8 +47,15 @@ def gen_list(rng):
     return l
 
 
+def synth_list(n):
+    """the synthetic list the harness builds for the words argument 'synth <n>': n distinct words w00000, w00001, ..."""
+    return ["w%05d" % i for i in range(n)]
+
+
 def words_tokens(l):
     if l in ("nil", "zero", "agilewords", "agilesyllables"):
+        return l
+    if isinstance(l, str) and l.startswith("synth "):
         return l
     return "%d%s" % (len(l), "".join(" " + core.hx(w) for w in l))
 
@@ -288,6 +298,41 @@ def gen_cases(ctx, n, with_empty_word=False):
         ctx.count("cap_" + (cap or "empty"))
         ctx.count("sep_" + sep[0])
     return cases
+
+
+BIG_SIZES = [65535, 65536, 65537, 70001, 131073]
+
+
+def run_big_lists(ctx):
+    """lists with 2^16 and more words (sizes around every 16-bit boundary), judged by the oracles only: the model's
+    normalisation is quadratic.  Tapes select the last word, the words just below and above index 65536, and random ones."""
+    rng = ctx.rng
+    cases, lines = [], []
+    sizes = BIG_SIZES if ctx.tier == "thorough" else [BIG_SIZES[ctx.seed % 2 + 1], BIG_SIZES[3]]
+    for n in sizes:
+        for cap, sep, L in (("none", ("char", "-"), 3), ("one", ("preset", "SFDigits1"), 2), ("all", ("char", ""), 2)):
+            targets = [n - 1, min(65536, n - 1), min(65535, n - 1), rng.randrange(n), 0, 65536 + 255 if n > 65536 + 255 else n - 2]
+            words = []
+            if cap == "one":
+                words.append(chargen.word_for_index(rng, L, rng.randrange(L)))
+            for i in range(L):
+                words.append(chargen.word_for_index(rng, n, targets[(i + len(cases)) % len(targets)], spread=True))
+                if i < L - 1:
+                    words += draws_for_sep(rng, sep)
+            words += draws_for_sep(rng, sep) + [rng.randrange(W) for _ in range(4)]
+            c = {"list": "synth %d" % n, "length": L, "sep": sep, "cap": cap, "budget": chargen.DEFAULT_BUDGET, "words": words,
+                 "meta": {"list": "synth %d (w00000 .. w%05d)" % (n, n - 1), "length": L, "sep": sep_json(sep), "cap": cap, "tape_kind": "big-list"}}
+            cases.append(c)
+            lines.append("g%d %s" % (len(cases) - 1, wlgen_line(c["list"], L, sep, cap, c["budget"], words)))
+    impl, note = core.run_impl(lines)
+    if note:
+        ctx.notes.append("big-list runner: " + note)
+    out = []
+    for i, c in enumerate(cases):
+        ctx.evaluations += 1
+        ctx.count("big_list_cases")
+        out.append((c, impl.get("g%d" % i), None))
+    return out
 
 
 def py_size(l):
